@@ -101,11 +101,14 @@ pub fn parse_sexagesimal(angle: &str) -> f64 {
 
     // Handle NSEW indicators
     let mut postfix_sign = 1.0;
-    if "wWsSeEnN".contains(&angle[n - 1..]) {
-        if "wWsS".contains(&angle[n - 1..]) {
-            postfix_sign = -1.0;
+    if let Some(last) = angle.chars().last() {
+        if "wWsSeEnN".contains(last) {
+            if "wWsS".contains(last) {
+                postfix_sign = -1.0;
+            }
+            // `last` is ASCII here, so n - 1 is a character boundary
+            angle = &angle[..n - 1];
         }
-        angle = &angle[..n - 1];
     }
 
     // Split into as many elements as given: D, D:M, D:M:S
